@@ -605,6 +605,10 @@ def r4_merges(repo, report):
                             problems.append(f"self.{a}.update(...) overwrites counts of equal keys instead of adding them")
                         else:
                             merged.setdefault(a, []).append(("add", _other_sources(s.value, taint)))
+                elif isinstance(s, ast.Return) and guards:
+                    # the merge is abandoned half-way depending on what the other object holds: whatever is merged
+                    # after this point is lost for that worker
+                    problems.append(f"the merge returns early under `{src(guards[-1])[:50]}`: the tallies merged after that point are dropped for that worker's statistics")
                 elif isinstance(s, (ast.With, ast.Try)):
                     visit(s.body, guards)
 
